@@ -96,54 +96,39 @@ def call_bridge(sb, what, fn):
     return o
 
 
-def execute(case):
-    """Run solve() and is_satisfiable() on the case inside a sandbox.
-    Returns a dict with everything the oracles need."""
-    from cnfgen.utils.solver import supported_satsolvers
-    F = build_formula(case)
-    n = F.number_of_variables()
-    if n > MAXVARS:
-        raise ValueError("case too large for the harness: {} variables".format(n))
-    clauses = [list(c) for c in F]
-    table = tt.cnf_tt(n, clauses)
-    verdict = table != 0
-    model = kth_model(n, table, case.get('pick', 0)) if verdict else None
-    shape = case['shape']
-    mode = case['mode']
-    supported = list(supported_satsolvers())
-    installed = dict(case.get('installed') or {})
-    flags = list(case.get('flags') or [])
+def join_cmd(tokens, sep=' '):
+    """The command line made of the tokens: sep between them ('  ': two blanks);
+    'pad': a blank before and after as well."""
+    if sep == 'pad':
+        return ' ' + ' '.join(tokens) + ' '
+    return sep.join(tokens)
 
+
+def resolve_call(call, flags, sep=' '):
+    """(program the command line names or None, cmd, sameas) of a call description
+    {mode, solver, exe}."""
+    mode = call['mode']
     if mode == 'named':
-        target = case['solver']
-        cmd, sameas = ' '.join([target] + flags), None
-    elif mode == 'sameas':
-        target = case['exe']
-        cmd, sameas = ' '.join([target] + flags), case['solver']
-    elif mode == 'unsupported':
-        target = case['exe']
-        cmd, sameas = ' '.join([target] + flags), None
-    elif mode == 'badsameas':
-        target = case.get('exe')
-        cmd = None if target is None else ' '.join([target] + flags)
-        sameas = case['solver']
-    elif mode == 'auto':
-        target = None
-        cmd, sameas = None, None
-    else:
-        raise ValueError(mode)
+        target = call['solver']
+        return target, join_cmd([target] + flags, sep), None
+    if mode == 'sameas':
+        target = call['exe']
+        return target, join_cmd([target] + flags, sep), call['solver']
+    if mode == 'unsupported':
+        target = call['exe']
+        return target, join_cmd([target] + flags, sep), None
+    if mode == 'badsameas':
+        target = call.get('exe')
+        return target, (None if target is None else join_cmd([target] + flags, sep)), call['solver']
+    if mode == 'auto':
+        return None, None, None
+    raise ValueError(mode)
 
-    if cmd is None:
-        flags = []
-    behaviours = {}
-    for name in installed:
-        if mode == 'sameas' and name == target:
-            behaviours[name] = fs.behaviour_of(sameas)
-        else:
-            behaviours[name] = fs.behaviour_of(name)
 
-    # expected outcome --------------------------------------------------
-    answered = shape['status'] == 'answer'
+def expected_outcome(mode, target, sameas, installed, supported, answered):
+    """What the documentation promises for a call, given the programs reachable through
+    PATH at the moment of the call (installed: name -> 'ok' | 'noexec' | 'badformat').
+    Returns (expect, expect_alt, chosen): expect is 'verdict' or the exception class."""
     expect_alt = None
     chosen = None
     if mode == 'badsameas':
@@ -172,9 +157,52 @@ def execute(case):
             expect = RuntimeError
         else:
             expect = 'verdict'
+    return expect, expect_alt, chosen
+
+
+def sandbox_options(env):
+    """Constructor arguments of fs.Sandbox for the 'env' entry of a case."""
+    if not env:
+        return {}
+    return {'bin_path': tuple(env.get('bin') or ['bin']),
+            'tmp_path': tuple(env.get('tmp') or ['tmp']),
+            'tmp_via': env.get('via', 'both')}
+
+
+def execute(case):
+    """Run solve() and is_satisfiable() on the case inside a sandbox.
+    Returns a dict with everything the oracles need."""
+    from cnfgen.utils.solver import supported_satsolvers
+    F = build_formula(case)
+    n = F.number_of_variables()
+    if n > MAXVARS:
+        raise ValueError("case too large for the harness: {} variables".format(n))
+    clauses = [list(c) for c in F]
+    table = tt.cnf_tt(n, clauses)
+    verdict = table != 0
+    model = kth_model(n, table, case.get('pick', 0)) if verdict else None
+    shape = case['shape']
+    mode = case['mode']
+    supported = list(supported_satsolvers())
+    installed = dict(case.get('installed') or {})
+    flags = list(case.get('flags') or [])
+
+    target, cmd, sameas = resolve_call(case, flags, case.get('sep', ' '))
+
+    if cmd is None:
+        flags = []
+    behaviours = {}
+    for name in installed:
+        if mode == 'sameas' and name == target:
+            behaviours[name] = fs.behaviour_of(sameas)
+        else:
+            behaviours[name] = fs.behaviour_of(name)
+
+    answered = shape['status'] == 'answer'
+    expect, expect_alt, chosen = expected_outcome(mode, target, sameas, installed, supported, answered)
 
     verbose = case.get('verbose', 0)
-    with fs.Sandbox() as sb:
+    with fs.Sandbox(**sandbox_options(case.get('env'))) as sb:
         for name, state in sorted(installed.items()):
             if state in STATES:
                 sb.install(name, behaviours[name], state, verdict, model, shape, n)
@@ -194,88 +222,101 @@ def execute(case):
 
 
 def describe(case, R):
-    return "formula p cnf {} {} {}; cmd={!r} sameas={!r} installed={} answer={}".format(
+    text = "formula p cnf {} {} {}; cmd={!r} sameas={!r} installed={} answer={}".format(
         R['n'], len(R['clauses']), R['clauses'][:6], R['cmd'], R['sameas'],
         R['installed'], {k: v for k, v in R['shape'].items()})
+    env = case.get('env')
+    if env:
+        text += "; directory for temporary files <scratch>/T/{} announced through {}, first PATH entry <scratch>/B/{}".format(
+            '/'.join(env.get('tmp') or ['tmp']), {'both': 'TMPDIR and tempfile.tempdir'}.get(env.get('via', 'both'), env.get('via')),
+            '/'.join(env.get('bin') or ['bin']))
+    return text
 
 
 # ---------------------------------------------------------------------------
 # oracles
 
-def check_verdict(case, R):
+def check_observation(o, R, ctx):
+    """One call into the bridge (o) against what the documentation promises (R: the
+    formula, the verdict and model the solver prints, the expected outcome, the solver
+    that has to be chosen)."""
     n, clauses = R['n'], R['clauses']
+    exp = R['expect']
+    # 1. what every solver run received
+    for c in o.calls:
+        if c['input'] is None:
+            # a fake that needs a file and got none (it refused), or one that could not read it
+            if exp == 'verdict':
+                raise Violation("{}(): solver '{}' was run as {} and received no formula; {}".format(
+                    o.what, c['name'], c['args'], ctx))
+            continue
+        try:
+            text = c['input'].decode('ascii')
+            gn, gcl = fs.strict_dimacs(text)
+        except (UnicodeDecodeError, fs.DimacsError) as e:
+            raise Violation("{}(): solver '{}' received text that is not DIMACS CNF ({}): {!r}; {}".format(
+                o.what, c['name'], e, c['input'][:200], ctx))
+        if gn != n or clause_key(gcl) != clause_key(clauses):
+            raise Violation("{}(): solver '{}' received p cnf {} {} {} which is not the formula held; {}".format(
+                o.what, c['name'], gn, len(gcl), gcl[:8], ctx))
+    # 2. outcome
+    if exp == 'verdict':
+        if o.exc is not None:
+            raise Violation("{}() raised {}({}) although solver '{}' is installed and answered {}; {}".format(
+                o.what, type(o.exc).__name__, str(o.exc).strip(), R['chosen'],
+                'SATISFIABLE' if R['verdict'] else 'UNSATISFIABLE', ctx))
+        if len(o.calls) != 1 or o.calls[0]['name'] != R['chosen']:
+            raise Violation("{}(): expected exactly one run of '{}' (first usable solver of {}), observed runs {}; {}".format(
+                o.what, R['chosen'], R['supported'] if R['mode'] == 'auto' else [R['chosen']],
+                [c['name'] for c in o.calls], ctx))
+        got_flags = [a for a in (o.calls[0]['args'] or []) if a.startswith('-')]
+        if got_flags != R['flags']:
+            raise Violation("{}(): the command line {!r} reached the solver with options {} (all arguments {}); {}".format(
+                o.what, R['cmd'], got_flags, o.calls[0]['args'], ctx))
+        if o.what == 'is_satisfiable':
+            if o.value is not R['verdict']:
+                raise Violation("is_satisfiable() returned {!r}, the solver answered {}; {}".format(
+                    o.value, R['verdict'], ctx))
+            return
+        v = o.value
+        if not (isinstance(v, tuple) and len(v) == 2):
+            raise Violation("solve() returned {!r}, not a pair; {}".format(v, ctx))
+        ok, A = v
+        if ok is not R['verdict']:
+            raise Violation("solve() returned verdict {!r}, the solver answered {}; {}".format(ok, R['verdict'], ctx))
+        if not R['verdict']:
+            if A is not None:
+                raise Violation("solve() returned (False, {!r}) for an unsatisfiable answer, expected (False, None); {}".format(A, ctx))
+            return
+        want = sorted(R['model'], key=abs)
+        if A is None and n == 0:
+            raise Violation("solve() returned (True, None) for a satisfiable formula without variables: "
+                            "the assignment (the empty list) is missing; {}".format(ctx),
+                            signature="zero-variables-witness-none")
+        if not isinstance(A, (list, tuple)):
+            raise Violation("solve() returned (True, {!r}): no assignment although the solver printed {}; {}".format(A, want, ctx))
+        A = list(A)
+        if any(type(l) is not int for l in A):
+            raise Violation("solve() returned a assignment with non-integer entries {!r}; {}".format(A, ctx))
+        if sorted(A, key=abs) == want and A != want:
+            raise Violation("solve() returned the assignment {} which is not ordered by variable; {}".format(A, ctx))
+        if A != want:
+            raise Violation("solve() returned the assignment {} but the solver printed the model {}; {}".format(A, want, ctx))
+        if not satisfies(clauses, A):
+            raise Violation("harness inconsistency: model {} does not satisfy {}".format(A, clauses))
+    else:
+        if o.exc is None:
+            raise Violation("{}() returned {!r} where {} is documented ({}); {}".format(
+                o.what, o.value, exp.__name__, why_error(R), ctx))
+        if not isinstance(o.exc, exp) and not (R['expect_alt'] and isinstance(o.exc, R['expect_alt'])):
+            raise Violation("{}() raised {}({}) where {} is documented ({}); {}".format(
+                o.what, type(o.exc).__name__, str(o.exc).strip(), exp.__name__, why_error(R), ctx))
+
+
+def check_verdict(case, R):
     ctx = describe(case, R)
     for o in R['obs']:
-        exp = R['expect']
-        # 1. what every solver run received
-        for c in o.calls:
-            if c['input'] is None:
-                # a fake that needs a file and got none (it refused), or one that could not read it
-                if exp == 'verdict':
-                    raise Violation("{}(): solver '{}' was run as {} and received no formula; {}".format(
-                        o.what, c['name'], c['args'], ctx))
-                continue
-            try:
-                text = c['input'].decode('ascii')
-                gn, gcl = fs.strict_dimacs(text)
-            except (UnicodeDecodeError, fs.DimacsError) as e:
-                raise Violation("{}(): solver '{}' received text that is not DIMACS CNF ({}): {!r}; {}".format(
-                    o.what, c['name'], e, c['input'][:200], ctx))
-            if gn != n or clause_key(gcl) != clause_key(clauses):
-                raise Violation("{}(): solver '{}' received p cnf {} {} {} which is not the formula held; {}".format(
-                    o.what, c['name'], gn, len(gcl), gcl[:8], ctx))
-        # 2. outcome
-        if exp == 'verdict':
-            if o.exc is not None:
-                raise Violation("{}() raised {}({}) although solver '{}' is installed and answered {}; {}".format(
-                    o.what, type(o.exc).__name__, str(o.exc).strip(), R['chosen'],
-                    'SATISFIABLE' if R['verdict'] else 'UNSATISFIABLE', ctx))
-            if len(o.calls) != 1 or o.calls[0]['name'] != R['chosen']:
-                raise Violation("{}(): expected exactly one run of '{}' (first usable solver of {}), observed runs {}; {}".format(
-                    o.what, R['chosen'], R['supported'] if R['mode'] == 'auto' else [R['chosen']],
-                    [c['name'] for c in o.calls], ctx))
-            got_flags = [a for a in (o.calls[0]['args'] or []) if a.startswith('-')]
-            if got_flags != R['flags']:
-                raise Violation("{}(): the command line {!r} reached the solver with options {} (all arguments {}); {}".format(
-                    o.what, R['cmd'], got_flags, o.calls[0]['args'], ctx))
-            if o.what == 'is_satisfiable':
-                if o.value is not R['verdict']:
-                    raise Violation("is_satisfiable() returned {!r}, the solver answered {}; {}".format(
-                        o.value, R['verdict'], ctx))
-                continue
-            v = o.value
-            if not (isinstance(v, tuple) and len(v) == 2):
-                raise Violation("solve() returned {!r}, not a pair; {}".format(v, ctx))
-            ok, A = v
-            if ok is not R['verdict']:
-                raise Violation("solve() returned verdict {!r}, the solver answered {}; {}".format(ok, R['verdict'], ctx))
-            if not R['verdict']:
-                if A is not None:
-                    raise Violation("solve() returned (False, {!r}) for an unsatisfiable answer, expected (False, None); {}".format(A, ctx))
-                continue
-            want = sorted(R['model'], key=abs)
-            if A is None and n == 0:
-                raise Violation("solve() returned (True, None) for a satisfiable formula without variables: "
-                                "the assignment (the empty list) is missing; {}".format(ctx),
-                                signature="zero-variables-witness-none")
-            if not isinstance(A, (list, tuple)):
-                raise Violation("solve() returned (True, {!r}): no assignment although the solver printed {}; {}".format(A, want, ctx))
-            A = list(A)
-            if any(type(l) is not int for l in A):
-                raise Violation("solve() returned a assignment with non-integer entries {!r}; {}".format(A, ctx))
-            if sorted(A, key=abs) == want and A != want:
-                raise Violation("solve() returned the assignment {} which is not ordered by variable; {}".format(A, ctx))
-            if A != want:
-                raise Violation("solve() returned the assignment {} but the solver printed the model {}; {}".format(A, want, ctx))
-            if not satisfies(clauses, A):
-                raise Violation("harness inconsistency: model {} does not satisfy {}".format(A, clauses))
-        else:
-            if o.exc is None:
-                raise Violation("{}() returned {!r} where {} is documented ({}); {}".format(
-                    o.what, o.value, exp.__name__, why_error(R), ctx))
-            if not isinstance(o.exc, exp) and not (R['expect_alt'] and isinstance(o.exc, R['expect_alt'])):
-                raise Violation("{}() raised {}({}) where {} is documented ({}); {}".format(
-                    o.what, type(o.exc).__name__, str(o.exc).strip(), exp.__name__, why_error(R), ctx))
+        check_observation(o, R, ctx)
     if not R['untouched']:
         raise Violation("the formula was modified by solve()/is_satisfiable(); {}".format(ctx))
 
@@ -291,15 +332,19 @@ def why_error(R):
     return "solver '{}' gave no answer ({})".format(R['chosen'], R['shape']['status'])
 
 
+def check_leftovers(o, ctx):
+    if o.left:
+        nfiles = [len([a for a in (c['args'] or []) if not a.startswith('-')]) for c in o.calls]
+        sig = "tmpfile-left-filein-stdout" if nfiles == [1] else None
+        raise Violation("{}() left {} in the temporary directory (outcome: {}; solver runs: {}); {}".format(
+            o.what, o.left, 'raised ' + type(o.exc).__name__ if o.exc is not None else repr(o.value),
+            [(c['name'], c['args']) for c in o.calls], ctx), signature=sig)
+
+
 def check_tmp(case, R):
     ctx = describe(case, R)
     for o in R['obs']:
-        if o.left:
-            nfiles = [len([a for a in (c['args'] or []) if not a.startswith('-')]) for c in o.calls]
-            sig = "tmpfile-left-filein-stdout" if nfiles == [1] else None
-            raise Violation("{}() left {} in the temporary directory (outcome: {}; solver runs: {}); {}".format(
-                o.what, o.left, 'raised ' + type(o.exc).__name__ if o.exc is not None else repr(o.value),
-                [(c['name'], c['args']) for c in o.calls], ctx), signature=sig)
+        check_leftovers(o, ctx)
 
 
 # ---------------------------------------------------------------------------
@@ -631,6 +676,458 @@ def enum_tmp(tier):
             yield _mk({'mode': 'named', 'solver': name, 'installed': {}}, f, ENUM_SHAPES[0], i)
 
 
+# ---------------------------------------------------------------------------
+# history: programs appear in / disappear from a directory of PATH while the process runs
+
+EXE = 'mysolver'          # the one unsupported program of a history; it speaks the convention of case['exe_sameas']
+
+
+def _reach(dirs):
+    """name -> state as seen through PATH: a working program in any directory is found
+    (the search goes on after a file that cannot be executed), otherwise the first entry."""
+    eff = {}
+    for d in dirs:
+        for name, state in d.items():
+            if eff.get(name) != 'ok' and (state == 'ok' or name not in eff):
+                eff[name] = state
+    return eff
+
+
+def _call_text(step, cmd, sameas):
+    if step['op'] == 'probe':
+        return "some_solver_installed({})".format('' if step.get('arg') is None else repr(step['arg']))
+    args = []
+    if cmd is not None:
+        args.append('cmd={!r}'.format(cmd))
+    if sameas is not None:
+        args.append('sameas={!r}'.format(sameas))
+    return "{}({})".format(step['what'], ', '.join(args))
+
+
+def canonical_arg(arg):
+    return arg if arg is None or isinstance(arg, str) else tuple(arg)
+
+
+def run_history(case):
+    from cnfgen.utils.solver import supported_satsolvers, some_solver_installed
+    F = build_formula(case)
+    n = F.number_of_variables()
+    if n > MAXVARS:
+        raise ValueError("case too large for the harness: {} variables".format(n))
+    clauses = [list(c) for c in F]
+    table = tt.cnf_tt(n, clauses)
+    verdict = table != 0
+    model = kth_model(n, table, case.get('pick', 0)) if verdict else None
+    shape = case['shape']
+    answered = shape['status'] == 'answer'
+    supported = list(supported_satsolvers())
+    exe_sameas = case.get('exe_sameas') or 'lingeling'
+    steps = case['steps']
+    if not 1 <= len(steps) <= 8:
+        raise ValueError("history of {} steps".format(len(steps)))
+
+    def behaviour(name):
+        return fs.behaviour_of(exe_sameas if name == EXE else name)
+
+    dirs = [{}, {}]
+    trace = []
+    labels = set(['steps={}'.format(len(steps))])
+    seen = {}            # call key -> outcomes so far
+    last_auto = None
+    last_change = None
+    ncalls = 0
+    with fs.Sandbox(extra_bins=1) as sb:
+        path0 = os.environ['PATH']
+        for name, state, where in case.get('initial') or []:
+            sb.install(name, behaviour(name), state, verdict, model, shape, n, where=where)
+            dirs[where][name] = state
+        if case.get('initial'):
+            trace.append("at start: {}".format(_reach(dirs)))
+        for step in steps:
+            op = step['op']
+            if op == 'install':
+                sb.install(step['name'], behaviour(step['name']), step['state'], verdict, model, shape, n,
+                           where=step.get('dir', 0))
+                dirs[step.get('dir', 0)][step['name']] = step['state']
+                trace.append("{} '{}' put in PATH directory {}".format(
+                    {'ok': 'program', 'noexec': 'non-executable file', 'badformat': 'non-program'}[step['state']],
+                    step['name'], step.get('dir', 0) + 1))
+                last_change = ('install', step['name'])
+                labels.add('install-' + step['state'])
+                if step.get('dir', 0):
+                    labels.add('second-path-directory')
+                continue
+            if op == 'remove':
+                if sb.remove(step['name'], where=step.get('dir', 0)):
+                    del dirs[step.get('dir', 0)][step['name']]
+                    trace.append("'{}' removed from PATH directory {}".format(step['name'], step.get('dir', 0) + 1))
+                    last_change = ('remove', step['name'])
+                    labels.add('remove')
+                    if _reach(dirs).get(step['name']) == 'ok':
+                        labels.add('removed-one-of-two-copies')
+                continue
+            # -- a call: what is reachable NOW decides
+            installed = _reach(dirs)
+            ncalls += 1
+            if op == 'probe':
+                arg = step.get('arg')
+                names = supported if arg is None else ([arg] if isinstance(arg, str) else list(arg))
+                want = any(installed.get(s) == 'ok' for s in names)
+                text = _call_text(step, None, None)
+                if arg is None:
+                    o = call_bridge(sb, 'some_solver_installed', lambda: some_solver_installed())
+                else:
+                    o = call_bridge(sb, 'some_solver_installed', lambda: some_solver_installed(arg))
+                ctx = "history so far: {}; now reachable through PATH: {}; PATH unchanged".format(
+                    '; '.join(trace) or '(nothing)', installed)
+                if o.exc is not None:
+                    raise Violation("{} raised {}({}); {}".format(text, type(o.exc).__name__, str(o.exc).strip(), ctx))
+                if bool(o.value) is not want:
+                    raise Violation("{} returned {!r} although {} of {} can be run at this moment; {}".format(
+                        text, o.value, 'one' if want else 'none', names, ctx))
+                key = ('probe', canonical_arg(arg))
+                outcome = want
+                trace.append("{} -> {}".format(text, o.value))
+                labels.add('probe-' + ('true' if want else 'false'))
+                labels.add('probe-arg-' + ('none' if arg is None else 'str' if isinstance(arg, str) else 'list'))
+            elif op == 'call':
+                flags = list(step.get('flags') or [])
+                if step['mode'] == 'sameas':
+                    step = dict(step, exe=EXE, solver=exe_sameas)
+                target, cmd, sameas = resolve_call(step, flags)
+                if cmd is None:
+                    flags = []
+                expect, expect_alt, chosen = expected_outcome(step['mode'], target, sameas, installed, supported, answered)
+                R = {'n': n, 'clauses': clauses, 'verdict': verdict, 'model': model, 'mode': step['mode'],
+                     'cmd': cmd, 'sameas': sameas, 'expect': expect, 'expect_alt': expect_alt, 'chosen': chosen,
+                     'flags': flags, 'supported': supported, 'installed': installed, 'target': target, 'shape': shape}
+                text = _call_text(step, cmd, sameas)
+                if step['what'] == 'solve':
+                    o = call_bridge(sb, 'solve', lambda: F.solve(cmd=cmd, sameas=sameas))
+                else:
+                    o = call_bridge(sb, 'is_satisfiable', lambda: F.is_satisfiable(cmd=cmd, sameas=sameas))
+                ctx = ("call {}; history so far: {}; now reachable through PATH: {}; PATH unchanged; "
+                       "formula p cnf {} {} {}; answer={}").format(
+                    text, '; '.join(trace) or '(nothing)', installed, n, len(clauses), clauses[:6], shape)
+                check_observation(o, R, ctx)
+                check_leftovers(o, ctx)
+                key = ('call', step['mode'], target)
+                outcome = chosen if expect == 'verdict' else None
+                trace.append("{} -> {}".format(text, 'raised ' + type(o.exc).__name__ if o.exc is not None else repr(o.value)))
+                labels.add(step['what'])
+                labels.add(step['mode'])
+                if expect == 'verdict':
+                    labels.add('answered-by:' + (('sameas:' + sameas) if step['mode'] == 'sameas' else chosen))
+                    labels.add(fs.CONVENTION_LABEL[behaviour(chosen)])
+                    labels.add('sat' if verdict else 'unsat')
+                if step['mode'] == 'auto':
+                    if chosen is not None and last_auto is not None and chosen != last_auto:
+                        labels.add('auto-choice-changes')
+                        if last_change == ('remove', last_auto):
+                            labels.add('auto-falls-back-after-removal')
+                        if last_change == ('install', chosen):
+                            labels.add('auto-prefers-newly-installed')
+                    if chosen is not None:
+                        last_auto = chosen
+            else:
+                raise ValueError(op)
+            prev = seen.setdefault(key, [])
+            if prev and answered:
+                was, now = prev[-1], outcome
+                if not was and now:
+                    labels.add('found-after-not-found')
+                    labels.add('found-after-not-found:' + key[0])
+                elif was and not now:
+                    labels.add('not-found-after-found')
+                    labels.add('not-found-after-found:' + key[0])
+                elif was == now:
+                    labels.add('same-answer-again')
+            prev.append(outcome)
+            if os.environ.get('PATH') != path0:
+                raise RuntimeError("harness: PATH changed during the history")
+        root = sb.root
+    if os.path.exists(root):
+        raise RuntimeError("harness: scratch directory {} not removed".format(root))
+    if [list(c) for c in F] != clauses or F.number_of_variables() != n:
+        raise Violation("the formula was modified by solve()/is_satisfiable(); history: {}".format('; '.join(trace)))
+    flips = [l for l in labels if l in ('found-after-not-found', 'not-found-after-found', 'auto-choice-changes')]
+    return Outcome(labels=sorted(labels), nontrivial=bool(flips), rejected=ncalls == 0)
+
+
+_HIST_STATES = ['ok'] * 6 + ['noexec', 'badformat']
+
+
+@st.composite
+def strat_history(draw):
+    """2..5 steps; the model of the directories is followed while drawing so that
+    removals hit something and calls are about the programs that moved."""
+    case = draw(strat_formula())
+    sh = draw(strat_shape())
+    if sh['status'] != 'answer' and draw(st.integers(0, 2)):
+        sh = dict(ENUM_SHAPES[draw(st.integers(0, 2))])
+    case['shape'] = sh
+    case['pick'] = draw(st.sampled_from([0, 1, 2]) | st.integers(0, 5000))
+    case['exe_sameas'] = draw(st.sampled_from(NAMES))
+    pool = draw(st.lists(st.sampled_from(NAMES), min_size=1, max_size=3, unique=True))
+    if draw(st.integers(0, 3)) == 0:
+        pool.append(EXE)
+    dirs = [{}, {}]
+    initial = []
+    for nm in draw(st.lists(st.sampled_from(NAMES + [EXE]), max_size=2, unique=True)):
+        where = draw(st.sampled_from([0, 0, 0, 1]))
+        state = draw(st.sampled_from(_HIST_STATES))
+        initial.append([nm, state, where])
+        dirs[where][nm] = state
+        if nm not in pool:
+            pool.append(nm)
+    case['initial'] = initial
+    L = draw(st.integers(2, 5))
+    steps = []
+
+    def a_call():
+        kind = draw(st.sampled_from(['named', 'named', 'auto', 'auto', 'probe', 'sameas']))
+        nm = draw(st.sampled_from(pool))
+        if kind == 'probe':
+            how = draw(st.sampled_from(['none', 'str', 'list', 'list']))
+            if how == 'none':
+                return {'op': 'probe', 'arg': None}
+            if how == 'str':
+                return {'op': 'probe', 'arg': nm}
+            others = draw(st.lists(st.sampled_from(NAMES + [EXE]), max_size=2))
+            k = draw(st.integers(0, len(others)))
+            return {'op': 'probe', 'arg': others[:k] + [nm] + others[k:]}
+        what = draw(st.sampled_from(['solve', 'is_satisfiable']))
+        flags = draw(st.lists(st.sampled_from(FLAGS), max_size=1))
+        if kind == 'auto':
+            return {'op': 'call', 'what': what, 'mode': 'auto'}
+        if nm == EXE or kind == 'sameas':
+            return {'op': 'call', 'what': what, 'mode': 'sameas', 'flags': flags}
+        return {'op': 'call', 'what': what, 'mode': 'named', 'solver': nm, 'flags': flags}
+
+    for i in range(L):
+        present = [(nm, w) for w in (0, 1) for nm in sorted(dirs[w])]
+        if i == L - 1:
+            steps.append(a_call())
+            continue
+        kind = draw(st.sampled_from(['call', 'call', 'install', 'install', 'remove']))
+        if kind == 'remove' and not present:
+            kind = 'install'
+        if kind == 'call':
+            steps.append(a_call())
+        elif kind == 'install':
+            nm = draw(st.sampled_from(pool))
+            where = draw(st.sampled_from([0, 0, 0, 1]))
+            state = draw(st.sampled_from(_HIST_STATES))
+            steps.append({'op': 'install', 'name': nm, 'state': state, 'dir': where})
+            dirs[where][nm] = state
+        else:
+            nm, where = draw(st.sampled_from(present))
+            steps.append({'op': 'remove', 'name': nm, 'dir': where})
+            del dirs[where][nm]
+    case['steps'] = steps
+    return case
+
+
+def enum_history(tier):
+    names = _tree_names()
+    forms = [ENUM_FORMULAS[3], ENUM_FORMULAS[5]] + ([ENUM_FORMULAS[0], BIG] if tier != 'quick' else [])
+    count = [0]
+
+    def mk(steps, initial=(), exe_sameas='minisat'):
+        count[0] += 1
+        i = count[0]
+        c = dict(forms[i % len(forms)])
+        c['shape'] = dict(ENUM_SHAPES[i % 3])
+        c['pick'] = i
+        c['exe_sameas'] = exe_sameas
+        c['initial'] = [list(x) for x in initial]
+        c['steps'] = steps
+        return c
+
+    def calls_for(x):
+        """the ways to ask about solver x (alone in the directories)"""
+        return [{'op': 'call', 'what': 'solve', 'mode': 'named', 'solver': x, 'flags': []},
+                {'op': 'call', 'what': 'is_satisfiable', 'mode': 'named', 'solver': x, 'flags': ['-q']},
+                {'op': 'call', 'what': 'solve', 'mode': 'auto'},
+                {'op': 'call', 'what': 'is_satisfiable', 'mode': 'auto'},
+                {'op': 'probe', 'arg': x},
+                {'op': 'probe', 'arg': None},
+                {'op': 'probe', 'arg': ['nosuchsolver', x]}]
+
+    for x in names:
+        put = {'op': 'install', 'name': x, 'state': 'ok', 'dir': 0}
+        rem = {'op': 'remove', 'name': x, 'dir': 0}
+        ks = calls_for(x)
+        for k in ks:
+            yield mk([k, put, k])                              # asked while absent, installed, asked again
+            yield mk([put, k, rem, k])                         # present, asked, removed, asked again
+        # the question is asked in one way first, in another way after the change
+        for a, b in ((0, 2), (2, 0), (4, 0), (5, 3), (1, 6), (3, 4)):
+            yield mk([ks[a], put, ks[b]])
+            yield mk([put, ks[a], rem, ks[b], ks[a]])
+        # a file that cannot be run is replaced by a working program, and back
+        yield mk([ks[0], {'op': 'install', 'name': x, 'state': 'noexec', 'dir': 0}, ks[0], put, ks[0]])
+        yield mk([put, ks[1], {'op': 'install', 'name': x, 'state': 'badformat', 'dir': 0}, ks[1], ks[2]])
+        # a second copy further down PATH
+        yield mk([ks[0], {'op': 'install', 'name': x, 'state': 'ok', 'dir': 1}, ks[0], put, ks[3]])
+        yield mk([ks[0], rem, ks[0], {'op': 'remove', 'name': x, 'dir': 1}, ks[0]], initial=[(x, 'ok', 0), (x, 'ok', 1)])
+        # an unsupported program driven with sameas=x
+        sa = {'op': 'call', 'what': 'solve', 'mode': 'sameas', 'flags': []}
+        sb_ = {'op': 'call', 'what': 'is_satisfiable', 'mode': 'sameas', 'flags': ['-v']}
+        yield mk([sa, {'op': 'install', 'name': EXE, 'state': 'ok', 'dir': 0}, sa, {'op': 'remove', 'name': EXE, 'dir': 0}, sb_],
+                 exe_sameas=x)
+        yield mk([{'op': 'probe', 'arg': EXE}, {'op': 'install', 'name': EXE, 'state': 'ok', 'dir': 0}, sb_], exe_sameas=x)
+        yield mk([sa, sb_], exe_sameas=x, initial=[(EXE, 'ok', 0)])
+    # default choice: b is installed, the preferred a appears, then goes away again
+    auto_s = {'op': 'call', 'what': 'solve', 'mode': 'auto'}
+    auto_i = {'op': 'call', 'what': 'is_satisfiable', 'mode': 'auto'}
+    pairs = [(names[j], names[k]) for j in range(len(names)) for k in range(j + 1, len(names))]
+    if tier == 'quick':
+        pairs = [p for p in pairs if names.index(p[1]) - names.index(p[0]) in (1, 4)] + [(names[0], names[-1])]
+    for a, b in pairs:
+        puta = {'op': 'install', 'name': a, 'state': 'ok', 'dir': 0}
+        rema = {'op': 'remove', 'name': a, 'dir': 0}
+        remb = {'op': 'remove', 'name': b, 'dir': 0}
+        yield mk([auto_s, puta, auto_s, rema, auto_i], initial=[(b, 'ok', 0)])
+        yield mk([auto_i, rema, auto_s], initial=[(a, 'ok', 0), (b, 'ok', 0)])
+        yield mk([auto_s, remb, auto_s, rema, auto_s], initial=[(a, 'ok', 0), (b, 'ok', 0)])
+        yield mk([{'op': 'probe', 'arg': [a, b]}, rema, {'op': 'probe', 'arg': [a, b]},
+                  remb, {'op': 'probe', 'arg': [a, b]}], initial=[(a, 'ok', 0), (b, 'ok', 0)])
+
+
+# ---------------------------------------------------------------------------
+# environment: unusual names of the temporary directory and of the PATH entry
+
+ODD_DIRS = [
+    ['my tmp'], ['a  b', 'tmp'], [' lead'], ['trail '], ["it's"], ['say "hi"'], ['tümp-目录-é'],
+    ['-dash'], ['-x', 'scratch files'], ['$HOME'], ['a;b&c'], ['(1) [new] {x}'], ['100%~#'], ['st*r?'],
+    ['back\\slash'], ['Program Files (x86)', "user's été"],
+]
+ODD_BINS = [d for d in ODD_DIRS] + [['opt', 'sat solvers', 'bin']]
+PLAIN = ['plain']
+VIAS = list(fs.Sandbox.TMP_VIA)
+SEPS = [' ', ' ', ' ', '  ', 'pad']
+ENV_FLAGS = FLAGS + ['-verb=0', '-cpu-lim=10']
+ODD_KINDS = ['blank', 'quote', 'unicode', 'leading-dash', 'shell-meta']
+
+
+def env_labels(env, R):
+    L = []
+    for what, comps in (('tmp', env.get('tmp') or PLAIN), ('bin', env.get('bin') or PLAIN)):
+        text = '/'.join(comps)
+        kinds = []
+        if ' ' in text:
+            kinds.append('blank')
+        if "'" in text or '"' in text:
+            kinds.append('quote')
+        if any(ord(ch) > 127 for ch in text):
+            kinds.append('unicode')
+        if any(c.startswith('-') for c in comps):
+            kinds.append('leading-dash')
+        if any(ch in text for ch in '$;&()[]{}*?\\%~#'):
+            kinds.append('shell-meta')
+        if not kinds:
+            kinds.append('plain')
+        for k in kinds:
+            L.append('{}:{}'.format(what, k))
+            if R['expect'] == 'verdict' and k != 'plain':
+                beh = R['behaviours'][R['chosen']]
+                if beh != 'poly':
+                    L.append('{}:{}/{}'.format(what, k, fs.CONVENTION_LABEL[beh]))
+    L.append('via:' + env.get('via', 'both'))
+    return L
+
+
+def _process_state():
+    import tempfile
+    return (tempfile.tempdir, dict(os.environ), os.getcwd())
+
+
+def run_env(case):
+    env = case['env']
+    saved = _process_state()
+    try:
+        R = execute(case)
+    finally:
+        now = _process_state()
+        if now != saved:
+            raise RuntimeError("harness: process state not restored after the case: tempfile.tempdir {!r} -> {!r}, "
+                               "environment changed: {}".format(saved[0], now[0], now[1] != saved[1]))
+    check_verdict(case, R)
+    check_tmp(case, R)
+    L = labels_of(case, R) + env_labels(env, R)
+    if case.get('sep', ' ') != ' ' and R['cmd'] is not None:
+        L.append('cmd-extra-blanks')
+    if R['cmd'] is not None and len(R['cmd'].split()) > 1 and R['expect'] == 'verdict':
+        L.append('cmd-with-arguments')
+        if R['mode'] == 'sameas':
+            L.append('cmd-with-arguments-sameas')
+    for o in R['obs']:
+        for c in o.calls:
+            L.append('files-passed={}'.format(len([a for a in (c['args'] or []) if not a.startswith('-')])))
+    L = sorted(set(L))
+    odd = any(not l.endswith(':plain') for l in L if l.startswith(('tmp:', 'bin:')))
+    return Outcome(labels=L, nontrivial=bool(R['expect'] == 'verdict' and odd), rejected=R['expect'] != 'verdict')
+
+
+@st.composite
+def strat_env(draw):
+    case = draw(strat_any())
+    if case['shape']['status'] != 'answer' and draw(st.integers(0, 1)):
+        case['shape'] = dict(ENUM_SHAPES[draw(st.integers(0, 2))])
+    env = {'tmp': draw(st.sampled_from(ODD_DIRS + [PLAIN])), 'bin': draw(st.sampled_from(ODD_BINS + [PLAIN, PLAIN])),
+           'via': draw(st.sampled_from(VIAS))}
+    if draw(st.integers(0, 5)) == 0:
+        env['tmp'] = env['tmp'] + draw(st.sampled_from(ODD_DIRS))
+    case['env'] = env
+    case['sep'] = draw(st.sampled_from(SEPS))
+    if case['mode'] != 'auto':
+        case['flags'] = draw(st.lists(st.sampled_from(ENV_FLAGS), max_size=3, unique=True))
+    return case
+
+
+def enum_env(tier):
+    names = _tree_names()
+    forms = [ENUM_FORMULAS[3], ENUM_FORMULAS[5]] + ([ENUM_FORMULAS[0], BIG] if tier != 'quick' else [])
+    i = 0
+    for name in names:
+        for j, odd in enumerate(ODD_DIRS):
+            for where in ('tmp', 'bin', 'both'):
+                if tier == 'quick' and where == 'both' and j % 4:
+                    continue
+                i += 1
+                env = {'tmp': odd if where != 'bin' else PLAIN,
+                       'bin': PLAIN if where == 'tmp' else ODD_BINS[(j + 5) % len(ODD_BINS)] if where == 'both' else odd,
+                       'via': VIAS[i % len(VIAS)]}
+                f = forms[i % len(forms)]
+                sh = ENUM_SHAPES[i % 3]
+                kind = (i // 2) % 3
+                if kind == 0:
+                    base = {'mode': 'named', 'solver': name, 'installed': {name: 'ok'}}
+                elif kind == 1:
+                    exe = EXES[i % len(EXES)]
+                    base = {'mode': 'sameas', 'solver': name, 'exe': exe, 'installed': {exe: 'ok'}}
+                else:
+                    base = {'mode': 'auto', 'installed': {name: 'ok'}}
+                c = _mk(base, f, sh, i)
+                c['flags'] = [[], ['-verb=0'], ['--plain', '-v'], ['-q']][i % 4] if kind != 2 else []
+                c['sep'] = SEPS[i % len(SEPS)]
+                c['env'] = env
+                yield c
+        # nothing to run / no answer in an unusual directory: the documented error, nothing left behind
+        for j, odd in enumerate(ODD_DIRS[:6]):
+            i += 1
+            env = {'tmp': odd, 'bin': ODD_BINS[(j + 3) % len(ODD_BINS)], 'via': VIAS[i % len(VIAS)]}
+            if j % 2:
+                c = _mk({'mode': 'named', 'solver': name, 'installed': {name: ('noexec', 'missing', 'badformat')[j % 3]}},
+                        ENUM_FORMULAS[3], ENUM_SHAPES[0], i)
+            else:
+                c = _mk({'mode': 'named', 'solver': name, 'installed': {name: 'ok'}},
+                        ENUM_FORMULAS[3], ENUM_SHAPES[3 + j % 3], i)
+            c['env'] = env
+            yield c
+
+
 _SOLVER_LABELS = ['solver:' + s for s in NAMES]
 _CONV = ['stdin-stdout', 'filein-stdout', 'filein-fileout']
 _SHAPE_LABELS = ['vlines=1', 'vlines=2', 'vlines=3', 'vlines=4', 'zero-same', 'zero-own', 'zero-none',
@@ -663,4 +1160,24 @@ SUBCHECKS = [
              required_labels=['files-passed=0', 'files-passed=1', 'files-passed=2', 'after-RuntimeError', 'after-ValueError',
                               'no-answer:filein-fileout', 'no-answer:filein-stdout', 'no-answer:stdin-stdout',
                               'no-answer:crash', 'not-installed', 'sat', 'unsat'] + _CONV),
+    SubCheck('history', run_history, strategy=strat_history, enumerate_cases=enum_history,
+             quick=320, thorough=16000,
+             rule="one process, one PATH string (two directories of the sandbox first on it), one formula, a sequence of 2..5 steps (generated; enumerated scenarios of 2..5 steps for every supported name and for pairs of names): put a working program / a non-executable file / a non-program called like a supported solver (or the unsupported 'mysolver' used with sameas=) into a PATH directory (replacing what is there), remove one, or ask: solve()/is_satisfiable() with cmd='<name> [option]', with cmd='mysolver', sameas=<name>, with no cmd (default choice), some_solver_installed() with no argument / a name / a list; oracle: a harness-side model of the two directories gives what is reachable at the moment of EACH call: the call is answered by exactly one run of the named solver, or, without cmd, of the first reachable name in supported_satsolvers() order, with the verdict/model that solver prints; RuntimeError only when the wanted solver (any solver) is not reachable or does not answer; some_solver_installed() is true iff one of the names can be run; temporary directory empty after every call; non-trivial: the same question gets a different correct answer later in the history (found after not found, not found after found, another default solver)",
+             required_labels=['found-after-not-found', 'not-found-after-found', 'auto-choice-changes',
+                              'auto-falls-back-after-removal', 'auto-prefers-newly-installed',
+                              'found-after-not-found:call', 'found-after-not-found:probe',
+                              'not-found-after-found:call', 'not-found-after-found:probe', 'same-answer-again',
+                              'solve', 'is_satisfiable', 'named', 'sameas', 'auto', 'probe-true', 'probe-false',
+                              'probe-arg-none', 'probe-arg-str', 'probe-arg-list', 'install-ok', 'install-noexec',
+                              'install-badformat', 'remove', 'second-path-directory', 'removed-one-of-two-copies',
+                              'steps=2', 'steps=3', 'steps=4', 'steps=5', 'sat', 'unsat']
+             + ['answered-by:' + s for s in NAMES] + ['answered-by:sameas:' + s for s in NAMES] + _CONV),
+    SubCheck('environment', run_env, strategy=strat_env, enumerate_cases=enum_env,
+             quick=400, thorough=24000,
+             rule="the cases of 'named'/'sameas'/'auto' run with the directory for temporary files and/or the first PATH entry under unusual names (1..3 components out of: blanks inside/doubled/leading/trailing, single and double quotes, non-ASCII, leading dash, $ ; & ( ) [ ] { } * ? backslash % ~ #; never tab, newline, '/', ':'), the temporary directory announced through tempfile.tempdir, TMPDIR, TEMP or both, command lines with 0..3 options (cmd='minisat -verb=0', cmd='x -q', sameas=...) separated by one or two blanks or padded with blanks; every supported name x every unusual name enumerated as tmp, as PATH entry (quick: a quarter of them as both); oracle: the same as in a plain directory (verdict/model of the solver chosen by the model, documented errors), the solver received the formula, options forwarded, temporary directory empty afterwards; tempfile.tempdir, os.environ and the working directory are verified restored after each case; non-trivial: a verdict obtained under an unusual name",
+             required_labels=['tmp:' + k for k in ODD_KINDS] + ['bin:' + k for k in ODD_KINDS]
+             + ['{}:{}/{}'.format(w, k, c) for w in ('tmp', 'bin') for k in ODD_KINDS for c in _CONV]
+             + ['via:' + v for v in VIAS] + ['tmp:plain', 'bin:plain', 'cmd-extra-blanks', 'cmd-with-arguments',
+                                            'cmd-with-arguments-sameas', 'files-passed=0', 'files-passed=1', 'files-passed=2',
+                                            'named', 'sameas', 'auto', 'not-installed', 'no-answer', 'sat', 'unsat']),
 ]
